@@ -274,4 +274,80 @@ theorem redis_owner_safe_partial (evs : List REv) (hn : NoLapse evs) (p o t : Na
 example : NoLapse [.register 0 1, .heartbeat 0, .register 1 1, .deregister 0, .register 1 2] := by
   intro ev hev; simp at hev; rcases hev with h | h | h | h | h <;> (subst h; simp)
 
+/-! ### the Redis statements, for etcd -/
+
+def Etcd.holding (s : Etcd) (p : Nat) : Prop := ∃ l, s.regs p = .holding l
+
+theorem hb_alive (s : Etcd) (p : Nat) : ((s.step (.heartbeat p)).1).alive = s.alive := by
+  simp only [Etcd.step]
+  cases s.regs p <;> simp only []
+  split <;> rfl
+
+theorem hb_regs_other (s : Etcd) (p q : Nat) (h : q ≠ p) : ((s.step (.heartbeat p)).1).regs q = s.regs q := by
+  simp only [Etcd.step]
+  cases s.regs p <;> simp only []
+  split
+  · rfl
+  · simp [h]
+
+theorem hb_holding_alive (s : Etcd) (p l : Nat) (h : ((s.step (.heartbeat p)).1).regs p = .holding l) :
+    s.alive l = true := by
+  simp only [Etcd.step] at h
+  cases hp : s.regs p with
+  | idle => simp [hp] at h
+  | notified => simp [hp] at h
+  | holding l0 =>
+    simp only [hp] at h
+    by_cases ha : s.alive l0 = true
+    · simp only [ha, ↓reduceIte] at h
+      rw [hp] at h; cases h; exact ha
+    · simp [ha] at h
+
+/-- the statement refuted for Redis (`PropC26_redis_exclusive`), for etcd -/
+def PropC26_etcd_exclusive : Prop :=
+  ∀ (evs : List EEv) (p q : Nat),
+    let s := (((Etcd.run {} evs).step (.heartbeat p)).1.step (.heartbeat q)).1
+    Etcd.holding s p → Etcd.holding s q → p = q
+
+/-- **etcd_exclusive_after_heartbeats**: after each of two registrants has had a heartbeat, at
+    most one of them is still holding — the same predicate that fails for Redis. -/
+theorem etcd_exclusive_after_heartbeats : PropC26_etcd_exclusive := by
+  intro evs p q s hp hq
+  by_cases hpq : p = q
+  · exact hpq
+  · exfalso
+    have h0 := einv_run evs {} einv_init
+    have h1 := einv_step h0 (.heartbeat p)
+    have h2 := einv_step h1 (.heartbeat q)
+    obtain ⟨l, hl⟩ := hp
+    obtain ⟨l', hl'⟩ := hq
+    -- q is holding after its own heartbeat: its lease is alive
+    have aq := hb_holding_alive _ q l' hl'
+    -- p was holding after its own heartbeat (q's heartbeat does not touch p): its lease is alive
+    have hp1 : ((Etcd.run {} evs).step (.heartbeat p)).1.regs p = .holding l := by
+      rw [← hb_regs_other _ q p hpq]; exact hl
+    have ap := hb_holding_alive _ p l hp1
+    have ap1 : ((Etcd.run {} evs).step (.heartbeat p)).1.alive l = true := by rw [hb_alive]; exact ap
+    have ap2 : s.alive l = true := by show (((_ : Etcd).step (.heartbeat q)).1).alive l = true; rw [hb_alive]; exact ap1
+    have aq2 : s.alive l' = true := by show (((_ : Etcd).step (.heartbeat q)).1).alive l' = true; rw [hb_alive]; exact aq
+    have k1 := h2.holdKey p l hl ap2
+    have k2 := h2.holdKey q l' hl' aq2
+    rw [k1] at k2
+    have : l = l' := Option.some.inj k2
+    subst this
+    exact hpq (h2.holdInj p q l hl hl')
+
+/-- the statement refuted for Redis (`PropC26_redis_lapse_notified`), for etcd: a registrant that
+    is holding while the key is not attached to its lease is no longer holding after its heartbeat -/
+theorem etcd_lapse_notified_same_shape (evs : List EEv) (p l : Nat)
+    (hp : (Etcd.run {} evs).regs p = .holding l) (hk : (Etcd.run {} evs).key ≠ some l) :
+    ¬ Etcd.holding ((Etcd.run {} evs).step (.heartbeat p)).1 p := by
+  have h0 := einv_run evs {} einv_init
+  have hdead : (Etcd.run {} evs).alive l = false := by
+    cases ha : (Etcd.run {} evs).alive l with
+    | false => rfl
+    | true => exact absurd (h0.holdKey p l hp ha) hk
+  intro ⟨l2, h2⟩
+  simp [Etcd.step, hp, hdead] at h2
+
 end Eru.Props.C26
